@@ -204,7 +204,7 @@ fn classify(s: &str) -> Classified {
     Classified { value, ckey: ck, flat: fl, hash, key, shape: lex::shape(s), mask }
 }
 
-fn build_db(list: Vec<(String, u8)>, n_primary_texts: usize) -> Db {
+fn build_db(list: Vec<(String, u8)>, n_primary_texts: usize, mutant_cap: usize) -> Db {
     let cls: Vec<Classified> = par_map(&list, ncpu(), |_, (s, _)| classify(s));
     let mut texts = Vec::with_capacity(list.len());
     let mut buckets: Vec<Bucket> = vec![];
@@ -247,8 +247,15 @@ fn build_db(list: Vec<(String, u8)>, n_primary_texts: usize) -> Db {
     }
     // quick-tier texts first inside every bucket (so that "the first K texts" of a bucket in the
     // thorough tier extend those of the quick tier)
+    // Texts that reached a bucket only as a mutant of some base are kept up to `mutant_cap` per
+    // bucket (shortest first) for the bucket-wise legs; all of them stay in the mutation leg.
     for b in buckets.iter_mut() {
-        b.texts.sort_by_key(|&t| (texts[t as usize].rank, t));
+        let (mut prim, mut muts): (Vec<u32>, Vec<u32>) = b.texts.iter().partition(|&&t| (t as usize) < n_primary_texts);
+        muts.sort_by_key(|&t| (texts[t as usize].rank, texts[t as usize].s.len(), t));
+        muts.truncate(mutant_cap);
+        prim.extend(muts);
+        prim.sort_by_key(|&t| (texts[t as usize].rank, t));
+        b.texts = prim;
     }
     Db { texts, buckets, shapes, n_flats: fidx.len() }
 }
@@ -388,6 +395,7 @@ fn generate(thorough: bool) -> Generated {
     let styles = gen::styles();
     let n_single = styles.iter().filter(|s| s.1).count();
     let mut bases: Vec<(u32, u8)> = vec![];
+    let mut seen_base: std::collections::HashSet<u32> = Default::default();
     let mut n_values = 0;
     for (v, vq) in &pool {
         if !thorough && !vq {
@@ -403,10 +411,15 @@ fn generate(thorough: bool) -> Generated {
             let toks = gen::tokens(v, st);
             let id = it.add(gen::join(&toks, "", None), rank);
             if k == 0 {
-                bases.push((id, vrank));
+                if seen_base.insert(id) {
+                    bases.push((id, vrank));
+                }
                 for s in [format!("{}", print_recon_compact(v)), format!("{}", print_recon(v)), format!("{}", print_recon_pretty(v))] {
                     let id = it.add(s, vrank);
-                    bases.push((id, vrank));
+                    // thorough-only values contribute one base (the styled compact text)
+                    if *vq && seen_base.insert(id) {
+                        bases.push((id, vrank));
+                    }
                 }
             }
             // blank insertion: default style, the two all-deviating styles; thorough: also the
@@ -427,10 +440,9 @@ fn generate(thorough: bool) -> Generated {
     let n_primary = it.list.len();
 
     // single-edit mutations of the base texts
-    bases.sort();
-    bases.dedup_by_key(|b| b.0);
     let quick_ins = ['{', ')', ',', '"'];
     let all_ins = ['{', '}', '(', ')', '@', ':', ',', ';', '"', '\\', ' ', '\n', 'a', '0', '-', '.', '%', '#'];
+    let repl = ['{', ')', ',', '"', ':', '@', '0'];
     let mut mutation_sets = vec![];
     for (base, brank) in bases {
         let s = it.list[base as usize].0.clone();
@@ -461,7 +473,7 @@ fn generate(thorough: bool) -> Generated {
         for &p in &cuts {
             for &c in all_ins.iter() {
                 let q = quick_ins.contains(&c);
-                if !thorough && !q {
+                if !q && (!thorough || brank != 0) {
                     continue;
                 }
                 let mut m = String::with_capacity(s.len() + 1);
@@ -472,9 +484,9 @@ fn generate(thorough: bool) -> Generated {
             }
         }
         // replacements (thorough)
-        if thorough {
+        if thorough && brank == 0 {
             for &(p, c) in &idx {
-                for &r in all_ins.iter() {
+                for &r in repl.iter() {
                     if r != c {
                         let mut m = String::with_capacity(s.len());
                         m.push_str(&s[..p]);
@@ -542,7 +554,8 @@ fn main() {
     let g = generate(thorough);
     let Generated { interner, n_values, n_primary, mutation_sets, handwritten } = g;
     let n_texts = interner.list.len();
-    let db = build_db(interner.list, n_primary);
+    let mutant_cap = ctx.tier.pick(16usize, 32usize);
+    let db = build_db(interner.list, n_primary, mutant_cap);
     let n_valid = db.texts.iter().filter(|t| matches!(t.class, Class::Valid(_))).count();
     let n_panics = db.texts.iter().filter(|t| t.class == Class::Panics).count();
     let n_invalid = n_texts - n_valid - n_panics;
@@ -788,7 +801,7 @@ fn main() {
                 }
             } else {
                 let i = handwritten[x as usize];
-                for &j in reps.iter().chain(invalid_all.iter()) {
+                for &j in reps.iter().chain(inv_pool.iter()) {
                     if i != j {
                         check_pair(&db, i.min(j), i.max(j), acc);
                     }
@@ -802,7 +815,7 @@ fn main() {
             transitions: acc.calls,
             evaluations: acc.evals,
             distinct_nontrivial: acc.nontrivial,
-            rule: "all ordered pairs of the invalid pool (hand-written unbalanced / bad-escape / blank / trailing-garbage / lexical near-miss texts plus the shortest invalid mutants); every hand-written text against every bucket representative and every invalid text; non-trivial = pairs inside the invalid pool".into(),
+            rule: "all ordered pairs of the invalid pool (hand-written unbalanced / bad-escape / blank / trailing-garbage / lexical near-miss texts plus the shortest invalid mutants); every hand-written text against every bucket representative and every text of the invalid pool; non-trivial = pairs inside the invalid pool".into(),
             samples: vec![sample(&db, inv_pool[0], inv_pool[1]), sample(&db, handwritten[27], reps[5]), sample(&db, inv_pool[inv_pool.len() - 1], inv_pool[inv_pool.len() - 2])],
             exhaustive: true,
             bounds: json!({"handwritten": handwritten.len(), "invalid_pool": inv_pool.len(), "all_invalid_texts": invalid_all.len(), "bucket_representatives": reps.len()}),
